@@ -292,3 +292,36 @@ def c10_exc_index(e):
     got = scr.lines()
     # the lines that were completely printed (their operation returned) must still be there, in order, at the top
     return got[:len(printed)] == printed
+
+
+# --- erase sequences against the frame height, every height (P over the height, screen model) ------------------------------
+from rich.live_render import LiveRender  # noqa: E402
+
+
+@symx("C10-erase-sequence-heights", timeout=600, kind="P",
+      functions=["rich/live_render.py:LiveRender.position_cursor", "rich/live_render.py:LiveRender.restore_cursor",
+                 "rich/live_render.py:LiveRender.__rich_console__"],
+      bounds="LiveRender with a frame of h lines for every h in 1..120 (screen 130 rows), after p in 0..3 printed lines: replaying "
+             "[printed lines, frame, position_cursor] leaves the printed lines intact, every frame row blank and the cursor on the "
+             "frame's first row; [printed lines, frame, newline, restore_cursor] likewise with the cursor back on the frame's first "
+             "row; no cursor-up leaves the screen")
+def c10_erase(e):
+    h = int(e.mk("height", 1, 120))
+    p = int(e.mk("printed", 0, 3))
+    mode = int(e.mk("mode", 0, 1))
+    c = Console(file=io.StringIO(), force_terminal=True, width=20, height=130, color_system=None, legacy_windows=False,
+                _environ={})
+    lr = LiveRender(frame("f", h))
+    for i in range(p):
+        c.print("p%d" % i)
+    c.print(lr, end="")
+    if mode == 0:
+        c.print(lr.position_cursor(), end="")
+    else:
+        c.print("")
+        c.print(lr.restore_cursor(), end="")
+    scr = Screen(130)
+    scr.feed(c.file.getvalue())
+    if scr.hit_top or scr.lines() != ["p%d" % i for i in range(p)]:
+        return False
+    return scr.row == p and scr.col == 0
